@@ -113,9 +113,9 @@ class MTree:
         if before is True:
             return 0
         if isinstance(before, int):
-            if not 0 <= before <= n:
-                raise Refused(INVALID + ("IndexError",), "index out of range (not documented-valid)")
-            return before
+            if before < 0:
+                raise Refused(INVALID + ("IndexError",), "negative index (not documented-valid)")
+            return min(before, n)  # an index behind the last child appends, as list.insert() does
         if isinstance(before, MNode):
             if before.parent is not parent:
                 raise Refused(INVALID, "`before` node is not a child of the target")
@@ -237,9 +237,9 @@ class MTree:
         elif before is True:
             pos = 0
         elif isinstance(before, int):
-            if not 0 <= before <= len(rest):
-                raise Refused(INVALID + ("IndexError",), "index out of range")
-            pos = before
+            if before < 0:
+                raise Refused(INVALID + ("IndexError",), "negative index")
+            pos = min(before, len(rest))  # an index behind the last child appends, as list.insert() does
         else:
             if before is node:
                 pos = new_parent.children.index(node)  # stays where it is
